@@ -164,6 +164,7 @@ type Options struct {
 	RepoDir      string
 	GraceSeconds int32
 	NoAdmission  bool
+	UIDPrefix    string
 }
 
 var oldGrace [3]int32
@@ -172,6 +173,7 @@ var oldGrace [3]int32
 func NewWorld(opt Options) (*World, error) {
 	scheme := NewScheme()
 	st := simapi.NewStore(scheme)
+	st.UIDPrefix = opt.UIDPrefix
 	w := &World{Scheme: scheme, Store: st, RepoDir: opt.RepoDir}
 	if !opt.NoAdmission {
 		adm, err := simapi.NewAdmission(st, opt.RepoDir)
